@@ -201,7 +201,7 @@ def generate(seed, tier, batch):
         kind = r.choice(["fe_dead", "fe_unknown", "fe_dup", "fe_del_dead", "bad_successor", "indep_successor", "indep_successor", "raw_dead", "raw_unknown", "raw_del_dead"])
         invalid.append({"kind": kind, "after_seg": r.randrange(nseg), "pick": r.random(), "op": r.choice(["Dgate", "Rgate", "BSgate", "MeasureX", "LossChannel"])})
     script = {"backend": backend, "opts": opts, "segs": segs, "call": r.choice(["list", "seq"]), "invalid": invalid,
-              "reset_between": r.random() < 0.25, "subset_state": r.random() < 0.3, "tape": seed}
+              "reset_between": r.random() < 0.25, "subset_state": r.random() < 0.3, "tape": seed, "foreign_first": r.random() < 0.25}
     if crash:
         script["crash"] = {"kfrac": round(r.random(), 4), "when": r.choice(["before", "after"]),
                            "exc": r.choice(["InjectedFault", "KeyboardInterrupt", "MemoryError"])}
@@ -501,6 +501,20 @@ def execute(script, w):
 
     with simenv:
         import strawberryfields.backends.gaussianbackend.backend as _gb
+        if script.get("foreign_first"):
+            # another engine of the same backend went through its own New/Del history earlier in the process
+            w.fault("foreign_activity:engine_with_other_mode_history")
+            try:
+                fp_ = sf.Program(3)
+                with fp_.context as q:
+                    sfops.Coherent(0.2, 0.1) | q[2]
+                    sfops.Del | q[1]
+                    fa, fb_ = sfops.New(2)
+                    sfops.Coherent(0.1, 0.5) | fb_
+                    sfops.Del | q[0]
+                simenv.engine(backend, script["opts"]).run(fp_)
+            except Exception as ex:  # noqa
+                w.log("foreign_error", exc=type(ex).__name__, msg=str(ex)[:200])
         simenv.rng.handler = count_handler
         _gb.hafnian_sample_state = hafnian_stub  # restored by SimEnv.__exit__
         Model.fock_resets = backend != "gaussian"
